@@ -16,12 +16,15 @@
        positional arguments and Python binds the same environment (defaults that were filtered out of the
        record by allowlist / denylist / representability are re-supplied by the signature), and it
        records the same section again.
+     - replay of a whole sequence of calls made under one store: in the store consisting of ALL recorded
+       sections at once every call of the sequence is handed the same arguments again (the sections of
+       prefix scopes add nothing new), and replaying records the same sections again.
    NOT proved in Coq (validated by harness/props/c07.py with a replay in a second fresh gin): that
-   parsing operative_config_str() produces such a store — that goes through the real serialiser and
-   parser (C06 / C02 / C03 cover their halves) — and the whole-sequence form of the replay. *)
+   parsing operative_config_str() produces that store — it goes through the real serialiser and parser
+   (C06 / C02 / C03 cover their halves). *)
 From Coq Require Import List String ZArith Bool Arith.
 From GinV Require Import Lib.Out Lib.PyStr Model.SelectorMap Model.Values Model.Gin Model.GinEngine Model.CallSpec
-                         Proofs.CallLemmas Proofs.CallProofs Proofs.MachineFrame Proofs.MachineProofs Proofs.MacroOperProofs Proofs.OperReplayProofs.
+                         Proofs.CallLemmas Proofs.CallProofs Proofs.MachineFrame Proofs.MachineProofs Proofs.MacroOperProofs Proofs.OperReplayProofs Proofs.OperReplaySeq.
 Import ListNotations.
 Open Scope string_scope.
 Open Scope list_scope.
@@ -116,6 +119,39 @@ Theorem C07_record_reproduces : forall c cfg cfg' scope args kwargs,
             sget p (prep_operative c args kwargs (prep_bindings cfg scope c args kwargs)).
 Proof. exact OperReplayProofs.C07_record_reproduces. Qed.
 
+(* ---- replay of a whole sequence of calls made under one store ---- *)
+(* R = recorded cfg cs is the record after the calls cs (each step is oper_update); it is the store that parsing
+   operative_config_str() into a cleared configuration yields.  A call in scope a/b also sees, in R, the sections
+   recorded for the same configurable in scopes a and "": they add nothing new. *)
+Theorem C07_replay_sequence : forall cfg cs scope c args kwargs na fk,
+  In (scope, c, args, kwargs) cs -> one_cfgable_per_selector cs -> scopes_ok cs ->
+  s_varkw (c_sig c) = false ->
+  merge_call c args kwargs (prep_bindings cfg scope c args kwargs) = Ok (na, fk) ->
+  exists fk', merge_call c args kwargs (prep_bindings (recorded cfg cs) scope c args kwargs) = Ok (na, fk') /\
+              py_bind (c_sig c) na fk' = py_bind (c_sig c) na fk.
+Proof. exact OperReplaySeq.C07_replay_sequence. Qed.
+
+(* any signature (also **kwargs): the same positional arguments and the same keyword VALUES; only the order of the
+   entries of ** may differ (replay_sequence_varkw_order is the example) *)
+Theorem C07_replay_sequence_any_signature : forall cfg cs scope c args kwargs na fk,
+  In (scope, c, args, kwargs) cs -> one_cfgable_per_selector cs -> scopes_ok cs ->
+  merge_call c args kwargs (prep_bindings cfg scope c args kwargs) = Ok (na, fk) ->
+  exists fk', merge_call c args kwargs (prep_bindings (recorded cfg cs) scope c args kwargs) = Ok (na, fk') /\
+    (forall p v, sget p fk = Some v -> sget p fk' = Some v) /\
+    (forall p v, sget p fk = None -> sget p fk' = Some v ->
+       sget p (configurable_defaults c) = Some v /\ sget p (kwarg_defaults (c_sig c)) = Some v /\
+       str_in p (supplied_positional_names (c_sig c) args) = false /\ str_in p (map fst kwargs) = false).
+Proof. exact C07_replay_sequence_merge. Qed.
+
+Theorem C07_record_reproduces_sequence : forall cfg cs, one_cfgable_per_selector cs -> scopes_ok cs ->
+  map fst (recorded (recorded cfg cs) cs) = map fst (recorded cfg cs) /\
+  forall k p, sget p (sec_of (recorded (recorded cfg cs) cs) k) = sget p (sec_of (recorded cfg cs) k).
+Proof. exact OperReplaySeq.C07_record_reproduces_sequence. Qed.
+
+Theorem C07_recorded_sections_are_the_calls : forall (dfun : callrecd -> pdict) cs k,
+  cget k (recorded_with dfun cs) <> None <-> exists x, In x cs /\ call_key x = k.
+Proof. exact recorded_has_section_iff. Qed.
+
 Print Assumptions C07_call_records_section.
 Print Assumptions C07_sections_only_grow.
 Print Assumptions C07_non_call_ops_keep_operative.
@@ -131,3 +167,7 @@ Print Assumptions C07_call_operative_exact.
 Print Assumptions C07_replay_one_call.
 Print Assumptions C07_replay_from_cleared_store.
 Print Assumptions C07_record_reproduces.
+Print Assumptions C07_replay_sequence.
+Print Assumptions C07_replay_sequence_any_signature.
+Print Assumptions C07_record_reproduces_sequence.
+Print Assumptions C07_recorded_sections_are_the_calls.
